@@ -106,4 +106,174 @@ theorem odds_map (f : β → γ) : ∀ (l : List β), odds (l.map f) = (odds l).
   | [x] => rfl
   | x :: y :: r => by simp [odds, odds_map f r]
 
+
+theorem splitChan_meas {d : DS α} {by_ : String} {col : Col} {parts : List (DS α)}
+    (hcol : d.chan.col by_ = some col) (hp : splitChan by_ d = some parts) :
+    parts.map (·.meas) = (uniqueFirst col).map
+      (fun u => d.meas.map (fun r => gather (indicesWhere (fun x => x == u) col) r)) := by
+  unfold splitChan at hp
+  simp only [hcol, Option.some.injEq] at hp
+  rw [← hp, List.map_map]
+  exact zipIdx_map_sel col (fun _ _ sel => d.meas.map (fun r => gather sel r))
+
+theorem splitChan_chan {d : DS α} {by_ : String} {col : Col} {parts : List (DS α)}
+    (hcol : d.chan.col by_ = some col) (hp : splitChan by_ d = some parts) :
+    parts.map (·.chan) = (uniqueFirst col).map
+      (fun u => Tbl.gather (indicesWhere (fun x => x == u) col) d.chan) := by
+  unfold splitChan at hp
+  simp only [hcol, Option.some.injEq] at hp
+  rw [← hp, List.map_map]
+  exact zipIdx_map_sel col (fun _ _ sel => Tbl.gather sel d.chan)
+
+theorem splitChan_rest {d : DS α} {by_ : String} {parts : List (DS α)}
+    (hp : splitChan by_ d = some parts) : ∀ p ∈ parts, p.obs = d.obs ∧ p.time = d.time := by
+  unfold splitChan at hp
+  cases hcol : d.chan.col by_ with
+  | none => simp [hcol] at hp
+  | some col =>
+    simp only [hcol, Option.some.injEq] at hp
+    subst hp
+    intro p hp
+    obtain ⟨x, _, rfl⟩ := List.mem_map.1 hp
+    exact ⟨rfl, rfl⟩
+
+/-- the constructor's executable check implies alignment -/
+theorem wfB_sound {d : DS α} (h : d.wfB = true) : d.WF d.nObs d.nChan d.nTime := by
+  unfold DS.wfB at h
+  simp only [Bool.and_eq_true, List.all_eq_true, beq_iff_eq] at h
+  obtain ⟨⟨⟨hm, ho⟩, hc⟩, ht⟩ := h
+  exact ⟨rfl, fun r hr => (hm r hr).1, fun r hr c hc' => (hm r hr).2 c hc',
+    fun kc hkc => ho kc hkc, fun kc hkc => hc kc hkc, fun kc hkc => ht kc hkc⟩
+
+
+/-! ### descriptor columns of `merge (split_obs d)` -/
+
+theorem lookup_map_col (t : Tbl) (f : Col → Col) (k : String) :
+    List.lookup k (t.map (fun kc => (kc.1, f kc.2))) = (List.lookup k t).map f := by
+  induction t with
+  | nil => rfl
+  | cons kc t ih =>
+    obtain ⟨k0, c0⟩ := kc
+    simp only [List.map_cons, List.lookup_cons]
+    by_cases hk : k == k0 <;> simp [hk, ih]
+
+theorem lookup_of_mem_nodup {δ : Type} {t : List (String × δ)} (hnd : (t.map (·.1)).Nodup) {k : String}
+    {c : δ} (h : (k, c) ∈ t) : t.lookup k = some c := by
+  induction t with
+  | nil => simp at h
+  | cons kc t ih =>
+    obtain ⟨k0, c0⟩ := kc
+    simp only [List.map_cons, List.nodup_cons] at hnd
+    rw [List.lookup_cons]
+    rcases List.mem_cons.1 h with h | h
+    · cases h; simp
+    · have hne : ¬ (k == k0) = true := by
+        intro hk
+        have : k = k0 := by simpa using hk
+        exact hnd.1 (List.mem_map.2 ⟨(k, c), h, this⟩)
+      simp only [hne]
+      exact ih hnd.2 h
+
+theorem lookup_setKey_ne {δ : Type} (k0 : String) (v : δ) (d : List (String × δ)) {k : String}
+    (hk : k ≠ k0) : (setKey k0 v d).lookup k = d.lookup k := by
+  unfold setKey
+  have hk' : (k == k0) = false := by simpa using hk
+  induction d with
+  | nil => simp [List.lookup_cons, hk']
+  | cons kc d ih =>
+    obtain ⟨k1, c1⟩ := kc
+    by_cases h1 : k1 = k0
+    · subst h1
+      rw [List.filter_cons_of_neg (by simp), List.lookup_cons, hk']
+      exact ih
+    · rw [List.filter_cons_of_pos (by simpa using h1), List.cons_append, List.lookup_cons,
+        List.lookup_cons]
+      cases (k == k1) with
+      | true => rfl
+      | false => exact ih
+
+theorem sharedKeys_of_all {δ : Type} {t0 : List (String × δ)} {rest : List (List (String × δ))}
+    {k : String} (h : ∀ t ∈ t0 :: rest, k ∈ t.map (·.1)) : k ∈ sharedKeys (t0 :: rest) := by
+  simp only [sharedKeys, List.mem_filter, List.all_eq_true, List.contains_iff_mem]
+  exact ⟨h t0 (by simp), fun t ht => h t (by simp [ht])⟩
+
+/-- dataset descriptors of the parts of `split_obs` agree with `d` away from `by` -/
+theorem splitObs_desc_lookup {d : DS α} {by_ : String} {parts : List (DS α)}
+    (hp : splitObs by_ d = some parts) {k : String} (hk : k ≠ by_) :
+    ∀ s ∈ parts, s.desc.lookup k = d.desc.lookup k := by
+  unfold splitObs at hp
+  cases hcol : d.obs.col by_ with
+  | none => simp [hcol] at hp
+  | some col =>
+    simp only [hcol, Option.some.injEq] at hp
+    subst hp
+    intro s hs
+    obtain ⟨x, _, rfl⟩ := List.mem_map.1 hs
+    split
+    · rfl
+    · exact lookup_setKey_ne by_ x.1 _ hk
+
+theorem varyKeys_sub {d : DS α} {by_ : String} {parts : List (DS α)}
+    (hp : splitObs by_ d = some parts) : ∀ k ∈ varyKeys parts, k = by_ := by
+  intro k hk
+  by_contra hne
+  cases hparts : parts with
+  | nil => simp [hparts, varyKeys] at hk
+  | cons p0 rest =>
+    rw [hparts] at hk
+    simp only [varyKeys, List.mem_filter, Bool.not_eq_true', List.all_eq_false] at hk
+    obtain ⟨_, s, hs, hneq⟩ := hk
+    have h1 := splitObs_desc_lookup hp hne s (by rw [hparts]; exact hs)
+    have h2 := splitObs_desc_lookup hp hne p0 (by rw [hparts]; simp)
+    rw [h1, h2] at hneq
+    simp at hneq
+
+/-- `merge(split_obs(d))` keeps every observation descriptor column of `d` (other than a
+    promoted one), re-indexed by the same permutation σ as the measurement rows -/
+theorem merge_split_column {d m : DS α} {no nc nt : Nat} (h : d.WF no nc nt) {by_ : String}
+    {col : Col} {parts : List (DS α)} (hcol : d.obs.col by_ = some col)
+    (hp : splitObs by_ d = some parts) (hm : merge parts = some m)
+    (hnd : (d.obs.map (·.1)).Nodup) {k : String} {c : Col} (hkc : (k, c) ∈ d.obs)
+    (hk : k ∉ varyKeys parts) :
+    (k, gather ((uniqueFirst col).flatMap (fun u => indicesWhere (fun x => x == u) col)) c) ∈ m.obs := by
+  have hobs := splitObs_obs hcol hp
+  cases hparts : parts with
+  | nil => simp [hparts, merge] at hm
+  | cons p0 rest =>
+    have hmobs : m.obs = (mergedObsKeys parts).map
+        (fun k => (k, (parts.map (partCol (varyKeys parts) k)).flatten)) := by
+      rw [hparts] at hm
+      simp only [merge, Option.some.injEq] at hm
+      rw [← hm, hparts]
+    have hkeys : ∀ t ∈ parts.map (·.obs), k ∈ t.map (·.1) := by
+      intro t ht
+      rw [hobs] at ht
+      obtain ⟨u, _, rfl⟩ := List.mem_map.1 ht
+      simp only [Tbl.gather, List.map_map, Function.comp]
+      exact List.mem_map.2 ⟨(k, c), hkc, rfl⟩
+    have hshared : k ∈ sharedKeys (parts.map (·.obs)) := by
+      rw [hparts] at hkeys ⊢
+      exact sharedKeys_of_all hkeys
+    have hmk : k ∈ mergedObsKeys parts := by
+      unfold mergedObsKeys
+      exact List.mem_append_left _ (List.mem_filter.2 ⟨hshared, by simpa using hk⟩)
+    rw [hmobs]
+    apply List.mem_map.2
+    refine ⟨k, hmk, ?_⟩
+    congr 1
+    have hpc : parts.map (partCol (varyKeys parts) k)
+        = (parts.map (·.obs)).map (fun t => (Tbl.col t k).getD []) := by
+      rw [List.map_map]
+      apply List.map_congr_left
+      intro s _
+      have : (varyKeys parts).contains k = false := by simpa using hk
+      simp only [partCol, this, Bool.false_eq_true, if_false, Function.comp]
+    rw [hpc, hobs, List.map_map, gather_flatMap, List.flatMap_def]
+    congr 1
+    apply List.map_congr_left
+    intro u _
+    simp only [Function.comp, Tbl.col, Tbl.gather]
+    rw [lookup_map_col, lookup_of_mem_nodup hnd hkc]
+    rfl
+
 end Rsa.Lemmas.C11
